@@ -339,7 +339,10 @@ _RELT = {"T01": ["C01", "C02", "C10", "C12", "C18", "C19"], "T03": ["C03", "C04"
 # V14.p3 (generic_hex restructured around a `written` counter, get_unchecked and an early-return chunked path) is reported by C14's rules, which are stated
 # on the clamp / budget shape (the hex family of DESIGN 8.5); V18.p3's arr! repeat helper (uninit + one write + assume_init instead of const_transmute) is
 # reported by C20.R, which knows the size-guarded const_transmute helper only
-_SKIPT = {("V14", 3), ("V18", 3)}
+# seventh corpus (X<prop>.p<i>, written after seed round 13; the authors were asked to spread the three patches over different functions)
+_RELT.update({"X02": ["C01", "C02", "C03", "C09", "C12", "C18", "C20"], "X03": ["C03", "C04", "C05", "C08", "C09", "C15", "C16"], "X07": ["C03", "C04", "C05", "C07", "C15", "C16", "C17"],
+              "X12": ["C01", "C03", "C09", "C10", "C12", "C18"], "X14": ["C14"], "X16": ["C03", "C04", "C07", "C08", "C15", "C16"], "X17": ["C03", "C04", "C05", "C07", "C12", "C17"]})
+_SKIPT = {("V14", 3), ("V18", 3), ("X14", 3)}
 for _g, _props in _RELT.items():
     for _i in (1, 2, 3):
         if (_g, _i) in _SKIPT:
@@ -505,3 +508,11 @@ mutant("c15-short-boxed-slice-asserted-instead-of-refused", ["C15"], [("src/impl
 
 mutant_on_patch("m-U09p1-replace-puts-the-removed-element-back", "U09.p1", ["C09", "C03"], [("src/sequence.rs", "let removed = ptr::replace(base.add(idx), last);", "let removed = ptr::replace(base.add(idx), ptr::read(base.add(idx)));")], "")
 mutant_on_patch("m-U09p3-joined-fields-in-the-other-order", "U09.p3", ["C09"], [("src/sequence.rs", "let joined = ManuallyDrop::new(Joined(self, last));", "let joined = ManuallyDrop::new(Joined(last, self));")], "C09.")
+
+# mutants of the forms the seventh corpus introduced
+mutant_on_patch("m-X03p2-take-next-advances-before-reading", "X03.p2", ["C03", "C04", "C08"], [("src/internal.rs", "        let value = ptr::read(self.array.get_unchecked(self.position));\n\n        self.position += 1;\n", "        self.position += 1;\n\n        let value = ptr::read(self.array.get_unchecked(self.position));\n")], "")
+mutant_on_patch("m-X03p2-fold-counts-one-short", "X03.p2", ["C08"], [("src/lib.rs", "            (0..N::USIZE).fold(init, |acc, _| {", "            (1..N::USIZE).fold(init, |acc, _| {")], "")
+mutant_on_patch("m-X03p3-vec-not-emptied", "X03.p3", ["C15", "C03"], [("src/impl_alloc.rs", "            v.set_len(0);\n", "")], "")
+mutant_on_patch("m-X03p3-read-one-element-in", "X03.p3", ["C15"], [("src/impl_alloc.rs", "v.as_ptr() as *const GenericArray<T, N>", "v.as_ptr().add(1) as *const GenericArray<T, N>")], "C15.G")
+mutant_on_patch("m-X14p1-digits-swapped", "X14.p1", ["C14"], [("src/hex.rs", "        s[0] = alphabet[usize::from(c / 16)];\n        s[1] = alphabet[usize::from(c % 16)];", "        s[1] = alphabet[usize::from(c / 16)];\n        s[0] = alphabet[usize::from(c % 16)];")], "C14.H8")
+mutant_on_patch("m-X14p2-hint-on-success", "X14.p2", ["C14"], [("src/hex.rs", "    if res.is_err() {", "    if res.is_ok() {")], "C14.H5")
